@@ -283,6 +283,9 @@ func c08(r *ev.Result, tier string) {
 	if !quick {
 		depth = 6
 	}
+	/* Above GetCertificate: sstls.Listen, and the server the program's way. */
+	c08ListenHistories(r, base)
+	c08ServerSeam(r, base, file0, pin0)
 	nHist := c08Histories(r, base, depth, v)
 	r.Set("histories", nHist)
 
@@ -499,6 +502,10 @@ func c08RunHistory(base string, hist []string, v func(string, string, c08Case)) 
 }
 
 func c08Replay(kind string, raw json.RawMessage) int {
+	if "c08listen" == kind || "c08server" == kind {
+		fmt.Println("findings of the Listen-level and server-level seams are replayed by re-running ./run C08 quick; the history or the damage is in the artefact")
+		return 2
+	}
 	var c c08Case
 	if err := json.Unmarshal(raw, &c); nil != err {
 		return 2
